@@ -53,13 +53,17 @@ impl AssignAddTransform {
                     SimpleAssignTarget::SuperProp(super_prop) => {
                         split_super_prop_target(super_prop, &span, opv.ident_provider)
                     }
+                    // the parentheses of the target are kept: `(let[k]) += e` must not come out as a
+                    // statement that starts with `let[`
                     SimpleAssignTarget::Paren(paren) => match unwrap_parens(&paren.expr) {
-                        Expr::Member(member) => {
-                            split_member_target(member, &span, opv.ident_provider)
-                        }
-                        Expr::SuperProp(super_prop) => {
-                            split_super_prop_target(super_prop, &span, opv.ident_provider)
-                        }
+                        Expr::Member(member) => keep_target_parens(
+                            paren,
+                            split_member_target(member, &span, opv.ident_provider),
+                        ),
+                        Expr::SuperProp(super_prop) => keep_target_parens(
+                            paren,
+                            split_super_prop_target(super_prop, &span, opv.ident_provider),
+                        ),
                         _ => (assign.left.clone(), left_expr.clone().into()),
                     },
                     _ => (assign.left.clone(), left_expr.clone().into()),
@@ -114,6 +118,28 @@ fn hoist(expr: &Expr, span: &Span, ident_provider: &mut dyn IdentProvider) -> Op
         }),
         Expr::Ident(ident),
     ))
+}
+
+fn keep_target_parens(
+    paren: &ParenExpr,
+    (target, left_operand): (AssignTarget, Box<Expr>),
+) -> (AssignTarget, Box<Expr>) {
+    let target = match target {
+        AssignTarget::Simple(SimpleAssignTarget::Member(member)) => {
+            AssignTarget::Simple(SimpleAssignTarget::Paren(ParenExpr {
+                span: paren.span,
+                expr: Box::new(Expr::Member(member)),
+            }))
+        }
+        AssignTarget::Simple(SimpleAssignTarget::SuperProp(super_prop)) => {
+            AssignTarget::Simple(SimpleAssignTarget::Paren(ParenExpr {
+                span: paren.span,
+                expr: Box::new(Expr::SuperProp(super_prop)),
+            }))
+        }
+        other => other,
+    };
+    (target, left_operand)
 }
 
 fn split_member_target(
